@@ -15,13 +15,13 @@ ENGINES = [
 chk("C07", "exploration", "E4",
     "bounded-exhaustive enumeration of all gene-list pairs over a k-innovation alphabet against a set-arithmetic reference",
     "Every ordered pair of gene lists over innovations {1..k} (k=6 quick, 8 thorough; empty list included) under 3 mutation-number patterns, 6 coefficient rows and both methods is evaluated on the real compatibility code and compared with E/D/W computed by set arithmetic; symmetry, zero self-distance, no NaN, non-negativity and linear==fast are asserted on each. The space named in the evidence rule is enumerated completely.",
-    "Innovation alphabet bounded by k; mutation numbers and coefficients come from small menus; trusts go build -overlay and the 40-line reference.",
+    "Innovation alphabet bounded by k in the pair enumeration; a second stage takes every length 0..48 (thorough 160) of a common run of genes followed by every pair of tails over 3 further innovations, each genome with plain attributes and with every second gene disabled / other weights / recurrence flags (attributes the formula does not mention); mutation numbers and coefficients come from small menus; trusts go build -overlay and the 40-line reference.",
     "DESIGN.md section 3 C07")
 
 chk("C12", "exploration", "E4",
     "bounded-exhaustive enumeration of all feed-forward DAGs on a small node set, every solver entry point vs a topological-order reference",
     "Every feed-forward edge set over {bias, input(s), <=2..3 hidden, output(s)} in which every neuron is reachable from a sensor is built as a real Network; under weight rotations, every registered activation type (uniform and mixed) and every input vector over a 4-value alphabet, Network.ForwardSteps(D), ForwardSteps(D+2), RecursiveSteps and the fast solver's ForwardSteps(D), ForwardSteps(D+2), RecursiveSteps and Relax (the fast solver derived from the network, restored from its written model, and constructed directly with bias links as connections, flushed before use; and one derived solver used through another entry point on another input and flushed) are compared (1e-11 relative) with a Kahn-order evaluation that uses the library's registered activation functions. The space named in the evidence rule is enumerated completely.",
-    "Node sets bounded (quick 5 nodes, thorough up to 7); weights/inputs from non-saturating menus; the activation functions themselves are trusted here (C18 checks them).",
+    "Node sets bounded (quick 5 nodes, thorough up to 7); besides one handle per network, a second fast solver derived from the same network is loaded and run between load and evaluation of the first; weights/inputs from non-saturating menus; the activation functions themselves are trusted here (C18 checks them).",
     "DESIGN.md section 3 C12")
 
 chk("C14", "exploration", "E4",
@@ -39,14 +39,14 @@ chk("C18", "exploration", "E4",
 chk("C19", "exploration", "E4",
     "bounded-exhaustive enumeration of all series up to length L over a 7-value alphabet and all small experiment shapes vs textbook definitions",
     "All sequences of length 0..5 (quick) / 0..7 (thorough) over {-2.5,0,1,1,3,1e10,1e-10} - every order and tie pattern of every multiset - are passed to each Floats accessor and compared with textbook definitions computed on a sorted copy (empirical quantile at ceil(p*n)); a panic is a violation; NaN/0 on the empty series. All experiments with 0..2(3) trials of 0..3 generations over a 6-record menu: every aggregate accessor (experiment and trial level incl. Trial.Average) is recomputed directly from the recorded generations; usage sequences: in-place sort, caller writes to returned series, another experiment read into the queried object.",
-    "Alphabet and length bounded; gonum is trusted for nothing (reference is independent).",
+    "Alphabet (11 symbols incl. three distinct negative values) and length bounded; gonum is trusted for nothing (reference is independent).",
     "DESIGN.md section 3 C19")
 
 ENGINES.append({"name": "E1 choice-tree explorer (deviation-bounded, stateless)", "path": "cmd/mc/explore.go, pop.go, popcheck.go",
   "serves_properties": ["C01", "C02", "C03", "C09", "C10", "C17", "C20"],
   "kind_free_text": "every random draw of the real code is a choice point with a small menu (vrand shim through the build overlay); all executions within d deviations of several base policies are run to completion and checked"})
 
-_E1NOTE = ("Every options object is a changed by-value copy of a used decoy options value; a run keeps one executor value for all its epochs (C02 / C17: one per process). Bounds: populations <= 12 (hand-built up to 30), 6-8 epochs, <= 1 deviation per run in quick and <= 2 on a scenario subset in thorough; random magnitudes from a 3-point menu; "
+_E1NOTE = ("Every options object is a changed by-value copy of a used decoy options value; a run keeps one executor value for all its epochs (C02 / C17: one per process). every third scenario runs at the library's log level debug (sinks silenced). Bounds: populations <= 12 (hand-built up to 30; C02 additionally base executions of a twenty-species population of 40 under the parallel executor; C09's shape stage all shapes of 5 and 8 organisms), 6-8 epochs, <= 1 deviation per run in quick and <= 2 on a scenario subset in thorough; random magnitudes from a 3-point menu; "
            "no model: every explored trace is an implementation trace. Trusts go build -overlay, the import rewrite math/rand -> vrand and the accessor file.")
 
 chk("C02", "model_checking", "E1",
@@ -84,7 +84,7 @@ chk("C01", "model_checking", "E2+E1",
 chk("C04", "model_checking", "E4xE1",
     "bounded-exhaustive enumeration of parent pairs crossed with exhaustive / deviation-bounded enumeration of the crossover's random choices, statement checked clause by clause",
     "Parents are all non-empty well-formed subsets of a master list of k innovations (k=5 quick, 6 thorough) containing two innovations for one link and a recurrent self-loop, in three layouts (outputs before hidden nodes; hidden nodes before two outputs; node ids from 0 with both parents carrying the same genome id); all ordered pairs x enabled patterns x trait patterns x fitness orders x three methods x every choice sequence of the real mate call (complete trees for single-point and for few matching genes, else all sequences within 2-3 deviations of three policies). Each child is checked against every clause of C04 (origin and uniqueness of genes, weights, fitter-parent rule, matching genes inherited, enabled flags, node set, averaged traits, parents unmodified).",
-    "Parents share consistent numbering except for the deliberate same-link pair; hidden-node alphabet of 2; weights from the hard-float alphabet. Trusts overlay + accessors.",
+    "Parents share consistent numbering except for the deliberate same-link pair; unequal fitness values are 0.5 / 1 and, in the second node layout, 0.3 against the next float64 above it; hidden-node alphabet of 2; weights from the hard-float alphabet. Trusts overlay + accessors.",
     "DESIGN.md section 3 C04")
 
 chk("C05", "model_checking", "E2",
@@ -100,31 +100,31 @@ chk("C06", "model_checking", "E2+E1",
 chk("C08", "model_checking", "E4+E1",
     "bounded-exhaustive enumeration of existing populations x ordered batches with a lock-step list-of-lists reference; the same reference on every baby batch of deviation-bounded multi-epoch runs",
     "(a) A family of structurally different genomes (8 quick; 12 thorough: all 8 hidden-node subsets, half of them in two weight settings) differing by excess and by disjoint genes: every way to pre-speciate an ordered choice of up to 2 members x every ordered batch of up to 3 further members (plus a repeated member) x 5 thresholds x both methods x 3 coefficient rows x 2 id layouts; the real speciate is followed organism by organism by a reference that recomputes the library's distance to each representative (any minimiser accepted on ties; new species iff none below threshold, with an id above every id issued before) and the final species lists are compared; the distance speciation works with is compared with the set-arithmetic formula for every pair. (b) the same reference on the babies of every epoch of the E1 runs (species-wise driving) and on NewPopulation / NewPopulationRandom / ReadPopulation.",
-    "Family and batch sizes bounded. Trusts overlay + accessors.",
+    "Family and batch sizes bounded; the epoch part adds a stagnating hand-built population whose species hold members resembling another species (babies nearest to a species that delta coding left without offspring). Trusts overlay + accessors.",
     "DESIGN.md section 3 C08")
 
 chk("C11", "exploration", "E4",
     "bounded-exhaustive enumeration of genomes (every absent/enabled/disabled assignment to every candidate link over four node layouts, recurrence and module variants), every pair of ids queried, vs a set-based reference",
     "Over four node layouts (sensors first; sensors with larger ids than neurons; two outputs; node list not in ascending id order) every assignment {absent, enabled, disabled} to every candidate link (all sources x all non-sensor targets incl. self-loops) is built as a genome and expressed; plus recurrent/parallel-link variants and modular genomes (enabled, disabled, two modules in all enabled/disabled combinations, three intersecting modules in two orders). For each network: nodes (id, role, activation, order), inputs/outputs in genome order (also behaviourally via LoadSensors), link multisets per node with pointer wiring, control-node wiring, NodeCount/LinkCount/Complexity, and Node/Nodes/From/To/Edge/WeightedEdge/Weight/HasEdgeFromTo/HasEdgeBetween for all ordered pairs of ids including absent ones (must be nil/false/empty); organism phenotype caching and rebuild.",
-    "Node sets of 4-5 nodes; weights from the hard-float alphabet; From/To compared as sets.",
+    "Node sets of 4-5 nodes; weights from the hard-float alphabet; From/To compared as sets; listings are treated as values (two listings drained interleaved, nested listings, successor / predecessor listings taken together).",
     "DESIGN.md section 3 C11")
 
 chk("C13", "model_checking", "E4",
     "exhaustive enumeration of operation histories (all sequences over a solver alphabet up to a length) on all small digraphs, differential oracle flushed-vs-fresh on the real solvers",
     "For every digraph over {bias, input, output, hidden} (thorough: also all 2^15 digraphs with two hidden nodes) in two variants, for the standard network and the fast solver built from the same genome, every history h of length <= 2 (3 thorough) over {Load x2, Forward(1), Forward(2), Recursive, Relax / Depth queries} followed by Flush and every continuation s of length <= 3 is executed; outputs, results and errors after every step of s must equal, bit for bit, those of s on a freshly built instance. Histories may also use Activate(), a wrong-length load and the read-only accessors. Plus 640 chain-shaped networks (length 1-4, one extra recurrent / time-delayed link) x 5 driving modes x warm-up lengths 1..7 before the flush, compared over a 7-step sequence.",
-    "Node sets of 4-5 nodes; two input values; observations through the public solver interface only.",
+    "Node sets of 4-5 nodes; two input values; observations through the public solver interface only. The deep-chain stage adds 1280 chain networks (plain, with a multiply / max module reading a deep node, and linear chains whose history before the flush loads +Inf / -Inf / NaN) x 5 modes x warm-up lengths 1..7.",
     "DESIGN.md section 3 C13")
 
 chk("C15", "exploration", "E4",
     "bounded-exhaustive enumeration of written objects (genomes with every hard float in every position, all activation types, GenomeSpace states, all small populations, all small feed-forward models, small experiments) through every encoding, bit-exact comparison",
     "Genomes (start, corner, unusual layouts, every gene weight / mutation number / trait parameter replaced in turn by every value of a 21-value hard-float alphabet, every scalar activation type, trait-reference patterns, GenomeSpace states of three families, modular genomes) through plain Write->Read / ReadGenome and YAML; organisms through MarshalBinary/UnmarshalBinary (and again after the genotype changed); every multiset of <= 3 genomes of a 6-member family through Population.Write->ReadPopulation; all 2^9 small feed-forward models plus a modular one and solvers with their connection list in every order through WriteModel->ReadFMNSModel with bit-equal outputs; experiments (all single-trial shapes of <= 2/3 generations and combinations) through Write->Read with records, champions and 8 derived statistics compared.",
-    "Alphabets bounded; sign of a zero weight not compared; experiment records always carry a champion.",
+    "Alphabets bounded; populations are written with genome ids that are the positions, all equal, and descending with gaps; sign of a zero weight not compared; experiment records always carry a champion.",
     "DESIGN.md section 3 C15")
 
 chk("C20", "model_checking", "E1",
     "complete enumeration of the tree of evaluator answers (environment choices) on the real Execute, compared with a reference protocol state machine",
     "For NumRuns x NumGenerations in {0..3}^2 (0..4 thorough), observer present/absent, both executors, a context cancelled or past its deadline before the start or not, a fresh / pre-allocated / still filled Trials slice, options carried directly or in a nested context, EVERY script of evaluator answers {unsolved, solved, error, cancel+unsolved, cancel+solved, solved+error} is executed on the real Experiment.Execute (4-organism XOR population) - the tree is enumerated completely, no deviation bound. A reference state machine written from the statement gives the exact notification / evaluation sequence for undisturbed runs and the abort rule (same prefix, no further evaluation, the evaluator's error or context.Canceled) for aborted ones, the recorded trials, and the population handling (fresh per trial, start topology, turnover between unsolved generations, none after solved).",
-    "Runs/generations bounded by 3 (4); the random draws of evolution are not enumerated here (they do not influence the protocol).",
+    "Runs/generations bounded by 3 (4); the evaluator's failure is a plain error, an error wrapping context.Canceled or one wrapping context.DeadlineExceeded (by configuration family); the random draws of evolution are not enumerated here (they do not influence the protocol).",
     "DESIGN.md section 3 C20")
 
 ENGINES.append({"name": "E3 controlled scheduler + vector-clock monitor + free-running race pass", "path": "shims/vsched, shims/vsync, shims/vatomic, tools/instrument, cmd/mc/c16.go",
@@ -134,11 +134,11 @@ ENGINES.append({"name": "E3 controlled scheduler + vector-clock monitor + free-r
 chk("C16", "model_checking", "E3",
     "stateless preemption-bounded exploration of all interleavings of the real parallel executor under a controlled scheduler, with a vector-clock happens-before monitor; plus a free-running race-detector pass",
     "For scenarios in which 2-3 species innovate on shared structure in the same epoch (all add-node, all add-link, mixed with mating and interspecies dad, optionally after a warm-up epoch) ALL interleavings of the real ParallelPopulationEpochExecutor.NextEpoch at its synchronisation operations and Population method entries are enumerated with at most 2 (quick) / 3 (thorough) preemptions; on every schedule: no deadlock, panic or livelock, no happens-before race on Population.innovations / nextInnovNum / nextNodeId, on package-level variables or on option fields the genetics package writes, no epoch error, exact size and partition, well-formed genomes, innovation ledger. Thread-local random answers keep each thread's data schedule-independent. sync.Pool is a deterministic LIFO stand-in with scheduling points. The same bodies run free under Go's race detector (6 / 60 runs, GOMAXPROCS 2 and 16).",
-    "Preemption bound; <= 3 reproduction threads; sequentially consistent interleavings only; race-freedom outside the anchored fields rests on the (not schedule-exhaustive) race-detector pass. Trusts the instrumenter's rewriting of go/chan/sync constructs and the shims.",
+    "Preemption bound; <= 3 reproduction threads under the controlled scheduler (nine scenarios in quick, among them both species connecting the same disconnected sensor), twenty species only in the free-running pass, which also evaluates the population guarantees after every epoch and reports a crash inside the library as a violation; sequentially consistent interleavings only; race-freedom outside the anchored fields rests on the (not schedule-exhaustive) race-detector pass. Trusts the instrumenter's rewriting of go/chan/sync constructs and the shims.",
     "DESIGN.md section 3 C16")
 
 chk("C17", "model_checking", "E1",
     "stateless deviation-bounded exploration in which every execution is run twice in-process and the base executions again in a second process; plus seeded runs on the real math/rand repeated in-process and in a second process",
     "Explorer mode: for every scenario (start genomes incl. one with five disconnected sensors and random populations x configuration rows x landscapes x policies, four node activators) every execution within 1 deviation of the base policy is run twice in the same process from the same start genome objects (second pass after garbage, forced GC and unrelated evolution, at log level debug with silenced sinks); the draw trace (kind and bound of each draw) and the bit-exact population fingerprints after construction and every epoch must agree; replaying recorded answers must meet the same draws; base executions are compared with a fresh process. Real math/rand: 16 (128 thorough) seed x start x configuration runs of 10 epochs repeated in-process under different GOGC / GOMAXPROCS and in a second process.",
-    "Map-iteration order and wall-clock time cannot be enumerated; dependence on them is caught by repetition (2-3 executions of thousands of runs). Bounds as in C02.",
+    "Besides the random draws the harness owns three environment choices and gives the executions that must agree different answers: the iteration order of every map the instrumenter can classify syntactically (range statements rewritten to iterate over harness-ordered keys: ascending / descending / rotated), the clock (package time replaced by a shim: 2001 + 1 ms per reading / 2033 + 7 s / 1999 + 1 ns) and the processor count (all / 1 / 3). One five-species population runs with all compatibility coefficients 0 (every placement an exact tie), one start genome is modular with module nodes attached through the control gene only. Memory addresses and maps the instrumenter cannot classify stay with the runtime; dependence on them is caught only by the repetition. Bounds as in C02.",
     "DESIGN.md section 3 C17")
